@@ -23,9 +23,11 @@ func (v *Vue) evalAttributes(ctx VueContext, n *html.Node) (map[string]any, erro
 	// First pass: collect static attributes and evaluate bound ones
 	for _, a := range n.Attr {
 		key := a.Key
+		// bound expressions are trimmed before evaluation; static and
+		// interpolated values are kept as written
 		val := strings.TrimSpace(a.Val)
 
-		boundValue := val
+		boundValue := a.Val
 		boundName := key
 		// literal bindings
 		if strings.HasPrefix(key, ":") {
@@ -55,8 +57,11 @@ func (v *Vue) evalAttributes(ctx VueContext, n *html.Node) (map[string]any, erro
 			var err error
 			// Internal attributes carry already evaluated v-html / v-text
 			// content (data); mustaches inside them are not template code.
-			if key != "data-v-html-content" && key != "data-v-text-content" && containsInterpolation(val) {
-				boundValue, err = v.interpolate(ctx, val)
+			if key == "data-v-html-content" || key == "data-v-text-content" {
+				// evaluated v-html / v-text content: surrounding blanks are dropped
+				boundValue = val
+			} else if containsInterpolation(a.Val) {
+				boundValue, err = v.interpolate(ctx, a.Val)
 				if err != nil {
 					return nil, fmt.Errorf("error evaluating attr %s: %w", boundName, err)
 				}
